@@ -167,7 +167,13 @@ func (ip *Inode) FreeInode(atxn *alloctxn.AllocTxn) {
 func (ip *Inode) Resize(atxn *alloctxn.AllocTxn, sz uint64) bool {
 	var newSz = sz
 	var doshrink = false
-	oldsz := util.RoundUp(ip.Size, disk.BlockSize)
+	var oldsz = util.RoundUp(ip.Size, disk.BlockSize)
+	if ip.ShrinkSize > oldsz {
+		// an earlier shrink has not finished yet (a file removed while the
+		// shrinker is still truncating it): blocks up to ShrinkSize are
+		// still held and must not be forgotten
+		oldsz = ip.ShrinkSize
+	}
 	util.DPrintf(5, "Resize %v to sz %d\n", oldsz, newSz)
 	if sz < ip.Size && sz%disk.BlockSize != 0 {
 		// the last block is kept: clear what it holds beyond the new size,
